@@ -136,6 +136,25 @@ def gen_inputs(rng, tier):
             inputs.append("%s to %s" % (a, u))
         for f in ("round", "floor", "ceil"):
             inputs.append("%s(%s)" % (f, a))
+    # every function x arguments at the edges of what its implementation computes with: magnitudes on both sides of the range of a
+    # machine float and of machine integers, both signs, reciprocals of them, with and without a unit, and every argument count
+    import qcorr
+    funcs = sorted({f[0] for f in qcorr.tables()["builtins"]}) + ["max", "f"]
+    mags = ["0", "1", "0.5", "1e15", "1e16", "9007199254740993", "2147483647", "2147483648", "4294967296", "9223372036854775807", "9223372036854775808",
+            "18446744073709551616", "1e38", "1e39", "1e307", "1e308", "1.7976931348623157e308", "1.7976931348623158e308", "1.8e308", "2e308",
+            "1e309", "1e400", "1e999", "1e-307", "1e-308", "1e-323", "1e-324", "1e-400", "1e-999", "1 / 3", "1 / 1e400"]
+    for f in funcs:
+        for m in mags:
+            for arg in (m, "-" + m, "0 - " + m, m + " m", "-" + m + " K", "1 / " + m):
+                inputs.append("%s(%s)" % (f, arg))
+                inputs.append("1 + %s(%s) * 2" % (f, arg))
+            if m not in ("2147483647", "2147483648"):
+                # (a digits argument that fits a machine integer but has more than two digits is a power beyond the property's bound:
+                # 10^2147483647 is a finite but astronomically long computation)
+                inputs.append("%s(1.5, %s)" % (f, m))
+                inputs.append("%s(1.5, -%s)" % (f, m))
+            inputs.append("%s(%s, 2)" % (f, m))
+        inputs += ["%s()" % f, "%s(1, 2, 3)" % f, "%s(,)" % f, "%s(1 m, 1 s)" % f, "%s(%s(1e400))" % (f, f), "%s(1) ^ 0" % f, "%s(1 / 0)" % f]
     return [s for s in inputs if "\x00" not in s and power_budget_ok(s)]
 
 
